@@ -346,7 +346,18 @@ def _program(rng, mode, tier):
         prog += _updates(rng, 0, rng.randint(0, 10), prof, mode)
         n = rng.choice([1, 3, cap * 5, cap * 5 + 1, cap * 5 + 7, 40])
         n = min(n, 120)
-        prog += [["bulk", 0, [float(v).hex() for v in _values(rng, n, rng.choice(["sparse", "dense", "integral", "scaled", "negative"]))]]]
+        dt = rng.choice(["float64", "float64", "float64", "int8", "int16", "uint8", "int64", "float32"])
+        if dt == "float64":
+            prog += [["bulk", 0, [float(v).hex() for v in _values(rng, n, rng.choice(["sparse", "dense", "integral", "scaled", "negative"]))]]]
+        else:
+            # arrays of a narrow dtype (values exactly representable in it), sometimes loaded twice so that
+            # the second load meets a full histogram and takes the in-place path
+            import numpy
+            lo, hi = {"int8": (-128, 127), "int16": (-3000, 3000), "uint8": (0, 255), "int64": (-10 ** 6, 10 ** 6), "float32": (-500, 500)}[dt]
+            for _ in range(rng.choice([1, 2, 2])):
+                raw = [rng.randint(lo, hi) if dt != "float32" else rng.uniform(lo, hi) for _ in range(n)]
+                vals = [float(getattr(numpy, dt)(x)) for x in raw]
+                prog += [["bulk", 0, [float(v).hex() for v in vals], dt]]
         prog += _updates(rng, 0, rng.randint(0, 8), prof, mode)
     elif kind == "load" and mode == "f" and rng.random() < 0.4:
         dc = default_cap()
@@ -368,6 +379,8 @@ def corpus():
     for kind in ("merge", "add"):
         yield {"mode": "f", "prog": [["new", 0, 3], ["new", 1, 8]] + [["upd", 1, h(v), 1] for v in (1, 9, 4, 30, 16, 2, 50, 25)] +
                [[kind, 0, 1], ["upd", 0, h(9), 2], ["upd", 0, h(17), 1]]}
+    # a second bulk load of a narrow-dtype array into a full histogram (in-place merges with counts from numpy)
+    yield {"mode": "f", "prog": [["new", 0, 3], ["bulk", 0, [h(v) for v in (10, 60, 120)], "int8"], ["bulk", 0, [h(v) for v in (61, 61, 61, 119, 11)], "int8"]]}
     # F-C13-1: bulkload above threshold (midpoint precedence) - arange(100) on a small histogram
     yield {"mode": "f", "prog": [["new", 0, 4], ["bulk", 0, [h(i) for i in range(100)]]]}
     # F-C13-2: load followed by updates (gap cache)
@@ -420,5 +433,5 @@ def _shrink(case):
             yield dict(case, prog=prog[:i] + prog[i + 1:])
     for i, op in enumerate(prog):
         if op[0] == "bulk" and len(op[2]) > 1:
-            yield dict(case, prog=prog[:i] + [["bulk", op[1], op[2][: len(op[2]) // 2]]] + prog[i + 1:])
-            yield dict(case, prog=prog[:i] + [["bulk", op[1], op[2][1:]]] + prog[i + 1:])
+            yield dict(case, prog=prog[:i] + [["bulk", op[1], op[2][: len(op[2]) // 2]] + op[3:]] + prog[i + 1:])
+            yield dict(case, prog=prog[:i] + [["bulk", op[1], op[2][1:]] + op[3:]] + prog[i + 1:])
